@@ -100,8 +100,9 @@ def tokenize(s, flags=frozenset()):
     toks = []
     i = 0
     n = len(s)
+    ws = WS + "\r" if "cr_ws" in flags else WS
     while True:
-        while i < n and s[i] in WS:
+        while i < n and s[i] in ws:
             i += 1
         if i >= n:
             toks.append(("end", ""))
@@ -132,7 +133,7 @@ def tokenize(s, flags=frozenset()):
                 i += 2
             elif c in "+-" and c1 == c:
                 j = i + 2
-                while j < n and s[j] in WS:
+                while j < n and s[j] in ws:
                     j += 1
                 before_id = j < n and s[j].isascii() and (s[j].isalpha() or s[j] == "_")
                 after_operand = bool(toks) and (toks[-1][0] == "num" or toks[-1] == ("op", ")"))
